@@ -24,4 +24,11 @@ theorem iNetX_unpack_state_independent (t : State) (buf : Bytes) (h : (unpack t 
   · split <;> simp_all
     split <;> simp_all
 
+/-- non-vacuity: a used object decodes a 30-byte packet -/
+example :
+    let a : State := { fresh with streamid := 0xDC, payload := [5, 0] }
+    let t : State := { fresh with sequence := 9, payload := [1, 2, 3] }
+    ∃ b, (pack a).2 = .ok b ∧ b.length = 30 ∧ (unpack t b).2 = .ok () ∧ (unpack t b).1.payload = [5, 0] :=
+  ⟨_, rfl, rfl, rfl, rfl⟩
+
 end Acra.Props.C13
